@@ -1,6 +1,7 @@
 package zzverif
 
 import (
+	"math"
 	"reflect"
 	"runtime"
 	"sync/atomic"
@@ -27,4 +28,139 @@ func gosched()                   { runtime.Gosched() }
 func FuncName(f interface{}) string {
 	rv := reflectValueOf(f)
 	return funcNameOf(rv)
+}
+
+// ---- native oracle for "package-level state is read-only during a run".
+// Under the engine the write barrier decides this; when it reports a write to
+// a package-level variable, the replay overlay registers that variable here
+// (generated file in the variable's package) and the harness compares a deep
+// structural dump of it before and after the step.
+
+type watched struct {
+	name string
+	ptr  interface{}
+}
+
+var watchedGlobals []watched
+
+// WatchGlobal registers a pointer to a package-level variable.
+func WatchGlobal(name string, ptr interface{}) {
+	watchedGlobals = append(watchedGlobals, watched{name, ptr})
+}
+
+// GlobalsDump is a deep structural dump of every watched variable ("" when
+// nothing is watched, as in every run of the engine).
+func GlobalsDump() string {
+	out := ""
+	for _, w := range watchedGlobals {
+		out += w.name + "=" + deepDump(w.ptr) + ";"
+	}
+	return out
+}
+
+func deepDump(x interface{}) string {
+	var sb []byte
+	seen := map[uintptr]bool{}
+	var walk func(v reflect.Value, depth int)
+	walk = func(v reflect.Value, depth int) {
+		if depth > 60 || !v.IsValid() {
+			sb = append(sb, "<>"...)
+			return
+		}
+		switch v.Kind() {
+		case reflect.Ptr, reflect.Interface:
+			if v.IsNil() {
+				sb = append(sb, "nil"...)
+				return
+			}
+			if v.Kind() == reflect.Ptr {
+				if seen[v.Pointer()] {
+					sb = append(sb, "<seen>"...)
+					return
+				}
+				seen[v.Pointer()] = true
+				sb = append(sb, '&')
+			}
+			walk(v.Elem(), depth+1)
+		case reflect.Struct:
+			sb = append(sb, '{')
+			for i := 0; i < v.NumField(); i++ {
+				sb = append(sb, (v.Type().Field(i).Name + ":")...)
+				walk(v.Field(i), depth+1)
+				sb = append(sb, ' ')
+			}
+			sb = append(sb, '}')
+		case reflect.Slice, reflect.Array:
+			sb = append(sb, '[')
+			sb = appendInt(sb, v.Len())
+			sb = append(sb, ':')
+			for i := 0; i < v.Len(); i++ {
+				walk(v.Index(i), depth+1)
+				sb = append(sb, ' ')
+			}
+			sb = append(sb, ']')
+		case reflect.Map:
+			// entry count and the dumps of the entries in a canonical order
+			sb = append(sb, "map["...)
+			sb = appendInt(sb, v.Len())
+			sb = append(sb, ':')
+			var items []string
+			it := v.MapRange()
+			for it.Next() {
+				save := sb
+				sb = nil
+				walk(it.Key(), depth+1)
+				sb = append(sb, '=')
+				walk(it.Value(), depth+1)
+				items = append(items, string(sb))
+				sb = save
+			}
+			sortStrings(items)
+			for _, s := range items {
+				sb = append(sb, s...)
+				sb = append(sb, ' ')
+			}
+			sb = append(sb, ']')
+		case reflect.Bool:
+			if v.Bool() {
+				sb = append(sb, 'T')
+			} else {
+				sb = append(sb, 'F')
+			}
+		case reflect.Int, reflect.Int8, reflect.Int16, reflect.Int32, reflect.Int64:
+			sb = appendInt(sb, int(v.Int()))
+		case reflect.Uint, reflect.Uint8, reflect.Uint16, reflect.Uint32, reflect.Uint64, reflect.Uintptr:
+			sb = appendInt(sb, int(v.Uint()))
+		case reflect.Float32, reflect.Float64:
+			sb = appendInt(sb, int(math.Float64bits(v.Float())))
+		case reflect.String:
+			sb = append(sb, ("\"" + v.String() + "\"")...)
+		case reflect.Func, reflect.Chan, reflect.UnsafePointer:
+			sb = append(sb, '@')
+			sb = appendInt(sb, int(v.Pointer()))
+		default:
+			sb = append(sb, '?')
+		}
+	}
+	walk(reflect.ValueOf(x), 0)
+	return string(sb)
+}
+
+func appendInt(b []byte, i int) []byte {
+	if i < 0 {
+		b = append(b, '-')
+		i = -i
+	}
+	if i >= 10 {
+		b = appendInt(b, i/10)
+	}
+	return append(b, byte('0'+i%10))
+}
+
+func sortStrings(a []string) {
+	for i := 1; i < len(a); i++ {
+		for j := i; j > 0 && a[j] < a[j-1]; j-- {
+			a[j], a[j-1] = a[j-1], a[j]
+		}
+	}
 }
